@@ -335,6 +335,10 @@ class Executor:
                     nodes.append(n)
                 s.generic_visit(n)
 
+            def visit_DictComp(s, n):
+                nodes.append(n)
+                s.generic_visit(n)
+
             def visit_FunctionDef(s, n):
                 if n is self.fn:
                     s.generic_visit(n)
@@ -347,6 +351,9 @@ class Executor:
             return f"for {ast.unparse(node.target)} in {ast.unparse(node.iter)}"
         if isinstance(node, ast.While):
             return f"while {ast.unparse(node.test)}"
+        if isinstance(node, ast.DictComp):
+            g = node.generators[0]
+            return f"{{... for {ast.unparse(g.target)} in {ast.unparse(g.iter)}}}"
         g = node.value.generators[0]
         return f"[... for {ast.unparse(g.target)} in {ast.unparse(g.iter)}]"
 
@@ -630,7 +637,7 @@ class Executor:
         inside = self.mem_keys(d.keys, k.t)
         # case split instead of an if-then-else term: the instantiator matches syntactically
         newkeys = d.keys if self.choose(inside) else d.KL.snoc(d.keys, k.t)
-        vt = opt_term(v) if isinstance(d.et, TOptional) else v.t
+        vt = value_term(v, d.et)
         newval = z3.Store(d.val, k.t, vt)
         nd = VDict(newkeys, newval, d.et, d.kt)
         return nd
@@ -671,7 +678,18 @@ class Executor:
         if spec.head != head:
             raise Unsupported(f"shape mismatch: loop #{k} is '{head}', contract expects '{spec.head}'")
         is_for = not isinstance(node, ast.While)
-        if isinstance(node, ast.Expr):
+        if isinstance(node, ast.DictComp):
+            # {k: v for t in xs}  ==  acc = {}; for t in xs: acc[k] = v   (accumulator `_dc`)
+            if len(node.generators) != 1 or node.generators[0].ifs:
+                raise Unsupported("dict comprehension shape")
+            gen = node.generators[0]
+            target, iter_node = gen.target, gen.iter
+            store = ast.Assign(targets=[ast.Subscript(value=ast.Name(id="_dc", ctx=ast.Load()), slice=node.key, ctx=ast.Store())], value=node.value)
+            ast.copy_location(store, node)
+            ast.fix_missing_locations(store)
+            body = [store]
+            orelse = []
+        elif isinstance(node, ast.Expr):
             comp = node.value
             if len(comp.generators) != 1 or comp.generators[0].is_async:
                 raise Unsupported("nested effectful comprehension")
@@ -866,6 +884,8 @@ class Executor:
             return v
         if isinstance(v, VDict):
             return v.keylist()
+        if isinstance(v, VSeq):
+            return v
         raise Unsupported(f"iteration over {v.ty}")
 
     # ---- expressions ---------------------------------------------------------------
@@ -912,6 +932,11 @@ class Executor:
                 t = et.list_theory().snoc(t, v.t)
             return VList(t, et)
         return VEmptyList()
+
+    def expr_Dict(self, node):
+        if node.keys:
+            raise Unsupported("non-empty dict literal")
+        return VEmptyDict()
 
     def expr_JoinedStr(self, node):
         # f-strings are only used for names/messages: an opaque string
@@ -1164,6 +1189,22 @@ class Executor:
         raise Unsupported(f"== on {a.ty},{b.ty}")
 
     # ---- comprehensions ------------------------------------------------------------------
+    def expr_DictComp(self, node):
+        ty = self.contract.locals.get("_dc")
+        if ty is None:
+            raise Unsupported("dict comprehension needs the type of its accumulator `_dc` in the contract's locals")
+        saved = self.st.env.get("_dc")
+        KL = ty.kt.list_theory()
+        self.st.env["_dc"] = VDict(KL.nil, self.st.fresh_const("dc0", z3.ArraySort(ty.kt.sort(), ty.et.sort())), ty.et, ty.kt)
+        self.exec_loop(node)
+        r = self.st.env.pop("_dc")
+        if saved is not None:
+            self.st.env["_dc"] = saved
+        return r
+
+    def expr_GeneratorExp(self, node):
+        raise Unsupported("generator expression outside a modelled builtin")
+
     def expr_ListComp(self, node):
         if len(node.generators) != 1:
             raise Unsupported("nested comprehension")
@@ -1325,6 +1366,8 @@ class Executor:
             return VFalseOr(z3.BoolVal(False), self.coerce(v, ty.inner, what), ty.inner)
         if isinstance(v, VEmptyList) and isinstance(ty, TList):
             return VList(ty.et.list_theory().nil, ty.et)
+        if isinstance(v, VEmptyDict) and isinstance(ty, TDict):
+            return VDict(ty.kt.list_theory().nil, self.st.fresh_const("emptydict", z3.ArraySort(ty.kt.sort(), ty.et.sort())), ty.et, ty.kt)
         if ty is TOpaque:
             return v
         if isinstance(v, VOptional) and not isinstance(ty, TOptional):
@@ -1339,6 +1382,13 @@ def _with_env(st, env):
     s.env = env
     s.heap = st.heap
     return s
+
+
+class VEmptyDict(V):
+    """the literal {} before its type is known"""
+
+    def __init__(self):
+        self.ty = TOpaque
 
 
 class VEmptyList(V):
